@@ -37,6 +37,9 @@ CHECKS = {
     'C07': dict(engine='tlc-eaoassembly', technique='TLC on the TLA+ model of the index algorithm (EAOAssembly; three labelling rules, adversarial names, unmapped variables) + TLC evaluation of every C07 clause on assembly traces recorded from the real code (Trace_EAOAssembly)', cat='model_checking', ref='DESIGN.md 4 (C07), 2.3',
                 text='Design level: TLC proves LabelInRange/LabelInjective/LabelIsPosition for the rule the code uses and must find the counterexamples of the pre-repair key rule (anti-vacuity). Code level: per-asset problems and the assembled problem of every zoo portfolio (all asset types incl. scale variables, booleans, periodic merge with duration, coarse grids), adversarial name sets, order books with out-of-horizon orders and reference families are logged as tables; TLC checks sizes, label range, ownership (rows, cost, bounds per variable), injectivity, embedding of asset rows, inert unmapped variables, l<=u/NaN, steps on grid, exactly one nodal row per (node, step) with dispatch.',
                 note='Per-asset problems are obtained through the public per-asset set-up with the same prices/grid; fixed point 1e-3; trusted: TLC.'),
+    'C19': dict(engine='tlc-eaotime', technique='TLC enumeration of the EAOTime specification (all grid / window / coarse / interval-list calls, C19 clauses as invariants) + exact comparison of every specified result with the real Timegrid call', cat='model_checking', ref='DESIGN.md 4 (C19), 2.1',
+                text='EAOTime (absolute hour ticks, one-switch zones, fixed vs calendar frequencies, Restrict, Coarse, Assign) is enumerated over all (zone, frequency, start, end, main time unit) cases around the real CET switches of 2021, all restriction windows, coarse frequencies and interval lists; TLC checks Increasing, StartsAtStart, BeforeEnd, StepLenTrue, CumLenTrue, RestrictDef, CoarsePartition, AssignDef in every state and emits the expected result of each call; the real Timegrid / set_restricted_grid / values_to_grid / prices_to_grid is called with the same arguments and compared exactly (rationals).',
+                note='pandas calendar arithmetic trusted for ticks -> timestamps; non-existing / ambiguous local hours are not used as inputs; one zone (CET).'),
 }
 
 ENGINES = [
@@ -48,6 +51,8 @@ ENGINES = [
          kind_free_text='TLA+ contract of the optimiser (ReturnSolution / ReturnFailure / ReturnInaccurate enabledness) evaluated by TLC on recorded calls'),
     dict(name='tlc-eaoassembly', path='spec/EAOAssembly.tla', serves_properties=['C07'],
          kind_free_text='TLA+ model of the index/mapping algorithm + Trace_EAOAssembly evaluating the C07/C15 clauses on tables logged from the real assembly'),
+    dict(name='tlc-eaotime', path='spec/EAOTime.tla', serves_properties=['C19'],
+         kind_free_text='TLA+ specification of time grids / sub-grids / interval data enumerated by TLC; every call replayed on the real Timegrid'),
 ]
 
 NOT_APPLICABLE = []
